@@ -185,7 +185,7 @@ PROPS = {
     },
     "C17": {
         "controls": ["ERR-1", "PAN-7"],
-        "rules": [("ERR-1", err.err1), ("ERR-2", err.err2), ("ERR-3", err.err3), ("ERR-4", err.err4), ("ERR-5", err.err5), ("ERR-6", r5.err6), ("ERR-7", r5.err7), ("PAN-7", pan.pan7), ("PAN-10", pan.pan10)],
+        "rules": [("ERR-1", err.err1), ("ERR-2", err.err2), ("ERR-3", err.err3), ("ERR-4", err.err4), ("ERR-5", err.err5), ("ERR-6", r5.err6), ("ERR-7", r5.err7), ("ERR-8", r5.err8), ("PAN-7", pan.pan7), ("PAN-10", pan.pan10)],
         "explanation": "PAN-7: formatting an error never slices a string at a character column (no str range-slice by a foreign offset in lib or bin). ERR-3 (ii-b): the characters handed to Lexer::new / AliasLexer::new are `<enumerated line>.chars().collect()` untransformed, so columns refer to the text the formatter prints. Decides the dispatch, payload and index-provenance clauses of C17: no call of an ASCAError formatter resolves to an impl whose "
                        "body is a bare unreachable!() (lib and CLI dispatchers cover all six Error variants); every variant of the six error enums carries a "
                        "location payload; the (group,line)/(kind,line) values handed to the lexers and parsers are the enumerate indices of exactly the slices "
